@@ -192,9 +192,12 @@ def _get_or_create_semaphore(
                     return GLOBAL_RETRY_SEMAPHORES[fallback_key]
     else:
         with GLOBAL_RETRY_SEMAPHORE_LOCK:
-            if sem_key not in GLOBAL_RETRY_SEMAPHORES:
-                GLOBAL_RETRY_SEMAPHORES[sem_key] = asyncio.Semaphore(semaphore_limit)
-            return GLOBAL_RETRY_SEMAPHORES[sem_key]
+            semaphore = GLOBAL_RETRY_SEMAPHORES.get(sem_key)
+            # an asyncio.Semaphore binds to the first event loop it is contended in; start afresh in a new loop
+            bound_loop = getattr(semaphore, '_loop', None)
+            if semaphore is None or (bound_loop is not None and bound_loop is not asyncio.get_running_loop()):
+                semaphore = GLOBAL_RETRY_SEMAPHORES[sem_key] = asyncio.Semaphore(semaphore_limit)
+            return semaphore
 
 
 def _calculate_semaphore_timeout(
